@@ -453,4 +453,119 @@ example : ∃ t' s p, deduplicateNamespaces c15RtEnv c15RtDoc [] = some t' ∧
     obtain ⟨s, p, h1, h2, h3, _, h5⟩ := C15_roundtrip c15RtEnv c15RtDoc t' [] (by decide) hd (by decide)
     exact ⟨t', s, p, rfl, h1, h2, h3, h5⟩
 
+/-! ## END TO END: `deduplicate_namespaces` as a step of an API history, then serialise, then parse
+
+`C15_roundtrip` above is about the tree-level model on a `Representable` tree.  Props/C04.lean shows that the
+forest-level model (handles; what a history of API calls runs) refines it on every forest with the
+invariant (`C15_forest_dedup_refines_tree`), that a second forest-level call changes nothing
+(`C15_forest_dedup_idem`), that every reachable forest has the invariant (`C04_reach_ext`) and that
+`Representable` of a reachable tree is a condition on its values (`C01_reachable_representable`).
+Composed (the two lemma families can be imported together since the helper names were made unique;
+Props/C04 comes in through Props/C01): -/
+
+section EndToEnd
+
+/-- ⟦C15_reachable_dedup⟧ **`deduplicate_namespaces(node)` as a step of an API history keeps
+    serialisability, is idempotent, and the text reparses deep-equal.**  `S` is the store after any
+    extended history `cs` from the empty store (well-kinded steps, consolidation never switched off), `r`
+    a parentless tree of it whose root is a document node, whose VALUES are in the XML domain for the
+    tables of the store (`envOK`, `valueOK` everywhere, distinct `xml:id`s, one top-level element and no
+    top-level text) and every name of which `to_string` can write (`namesWritable`); `node` is ANY node of
+    `r` (the document, an element, a leaf).  `S'` is the store after the history extended by
+    `deduplicate_namespaces(node)`.  Then
+      * the call answers `Ok`, the tables are untouched, `S'` has the invariant;
+      * the SAME call once more changes nothing at all (store equality) and answers `Ok`;
+      * the tree `r'` that `r` has become (`node` at the same path; it is the tree model's answer on the
+        erased tree) is still `Representable`, every name is still writable, `to_string` succeeds, and
+        `parse` of the text gives back exactly `r'` erased — tables unchanged — which is `deep_equal`
+        to the tree BEFORE the call. -/
+theorem C15_reachable_dedup (env : Env) (cs : List Forest.XCall) (hw : ∀ c ∈ cs, c.wellKinded)
+    (S : Store) (hS : S = (⟨Forest.init, env⟩ : Store).xrun cs) (hoff : S.forest.everOff = false)
+    (r : HTree) (hr : r ∈ S.forest.roots) (hdoc : r.value.isDocument = true) (henv : envOK S.env = true)
+    (hval : r.erase.allNodes (fun v _ => valueOK S.env v) = true)
+    (hid : (xmlIdValues S.env r.erase).Nodup) (hone : singleRoot r.erase = true)
+    (hwr : namesWritable S.env r.erase [] = some true)
+    (node : Nat) (hn : node ∈ r.handles)
+    (S' : Store) (hS' : S' = (⟨Forest.init, env⟩ : Store).xrun (cs ++ [.deduplicateNamespaces node])) :
+    ((Forest.XCall.deduplicateNamespaces node).run S).2 = .ok ∧ S'.env = S.env ∧ S'.forest.Inv ∧
+    (Forest.XCall.deduplicateNamespaces node).run S' = (S', .ok) ∧
+    ∃ (r' : HTree) (path : Path), r.pathOf node = some path ∧ r'.pathOf node = some path ∧
+      S'.forest.roots = S.forest.roots.map (fun y => if (y.pathOf node).isSome then r' else y) ∧
+      S'.forest.rootOf? node = some r' ∧
+      deduplicateNamespaces S.env r.erase path = some r'.erase ∧
+      Representable S.env r'.erase = true ∧ namesWritable S.env r'.erase [] = some true ∧
+      ∃ s p, toXmlString S.env r'.erase [] = .ok s ∧ parseString .document S.env s = .ok p ∧
+        p.tree = r'.erase ∧ p.env = S.env ∧ deepEqual p.tree r.erase = true := by
+  have hi' : S'.forest.Inv := by
+    rw [hS']
+    refine C04_reach_ext env _ (fun c hc => ?_)
+    rcases List.mem_append.mp hc with hc | hc
+    · exact hw c hc
+    · rw [List.mem_singleton.mp hc]; trivial
+  have hstep : S' = ⟨(S.forest.deduplicateNamespaces S.env node).1, S.env⟩ := by
+    rw [hS', hS]; simp [Store.xrun, List.foldl_append, Store.xstep, Forest.XCall.run]
+  subst hS
+  have hi := C04_reach_ext env cs hw
+  have hrep : Representable ((⟨Forest.init, env⟩ : Store).xrun cs).env r.erase = true := by
+    rw [(C01_reachable_representable env cs hw hoff r hr _).2]
+    simp [henv, hdoc, hval, hid, hone]
+  have h1 := Forest.fpxr_rootOf_of_mem hi.nodup hr hn
+  obtain ⟨path, h2⟩ := Forest.fpxd_rootOf_path h1
+  obtain ⟨r', a1, a2, a3, a4, a5, _, _, _, _⟩ := C15_forest_dedup_refines_tree _ hi
+    ((⟨Forest.init, env⟩ : Store).xrun cs).env node r h1 path h2
+  have hrep' := C15_representable _ r.erase r'.erase path hrep a2
+  obtain ⟨s, p, k1, k2, k3, k4, k5⟩ := C15_roundtrip _ r.erase r'.erase path hrep a2 hwr
+  have hwr' : namesWritable ((⟨Forest.init, env⟩ : Store).xrun cs).env r'.erase [] = some true := by
+    have hfrag : RepresentableFragment ((⟨Forest.init, env⟩ : Store).xrun cs).env r'.erase = true := by
+      simp only [Representable, Bool.and_eq_true] at hrep'; exact hrep'.1
+    exact (C01_serialises _ r'.erase hfrag).mp ⟨s, k1⟩
+  have hidem := C15_forest_dedup_idem _ hi ((⟨Forest.init, env⟩ : Store).xrun cs).env node
+  subst hstep
+  refine ⟨a1, rfl, hi', ?_, r', path, h2, a4, a5, a3, a2, hrep', hwr', s, p, k1, k2, k3, k4, k5⟩
+  simp only [Forest.XCall.run]
+  rw [hidem]
+
+/-! Non-vacuity, closed: an 8-step history (three node creations, two `append`s, three
+    `namespaces_mut().insert`) builds the document `c15RtDoc` above,
+    `<r xmlns="urn:a" xmlns:p="urn:b"><p:c xmlns:q="urn:b"/></r>`, with handles; every hypothesis holds by
+    evaluation; after the step `deduplicate_namespaces(doc)` the redundant `xmlns:q` is gone (handle 5) and
+    the document serialises to `<r xmlns="urn:a" xmlns:p="urn:b"><p:c/></r>`. -/
+
+def c15ReachCalls : List Forest.XCall :=
+  [.newNode .document, .newNode (.element 2), .newNode (.element 3), .call (.append 0 1), .call (.append 1 2),
+   .call (.mapInsert .namespaces 1 (.namespace 0 2)), .call (.mapInsert .namespaces 1 (.namespace 2 3)),
+   .call (.mapInsert .namespaces 2 (.namespace 3 3))]
+def c15ReachRoot : HTree :=
+  .node 0 .document [.node 1 (.element 2) [.node 3 (.namespace 0 2) [], .node 4 (.namespace 2 3) [],
+    .node 2 (.element 3) [.node 5 (.namespace 3 3) []]]]
+
+example : (∀ c ∈ c15ReachCalls, c.wellKinded) ∧
+    ((⟨Forest.init, c15RtEnv⟩ : Store).xrun c15ReachCalls).forest.everOff = false ∧
+    ((⟨Forest.init, c15RtEnv⟩ : Store).xrun c15ReachCalls).forest.roots = [c15ReachRoot] ∧
+    c15ReachRoot.erase = c15RtDoc ∧
+    c15ReachRoot.value.isDocument = true ∧ envOK c15RtEnv = true ∧
+    c15ReachRoot.erase.allNodes (fun v _ => valueOK c15RtEnv v) = true ∧
+    (xmlIdValues c15RtEnv c15ReachRoot.erase).Nodup ∧ singleRoot c15ReachRoot.erase = true ∧
+    namesWritable c15RtEnv c15ReachRoot.erase [] = some true ∧ 0 ∈ c15ReachRoot.handles := by
+  decide +kernel
+
+example :
+    let S' := (⟨Forest.init, c15RtEnv⟩ : Store).xrun (c15ReachCalls ++ [.deduplicateNamespaces 0])
+    S'.forest.allHandles = [0, 1, 3, 4, 2] ∧
+    S'.forest.roots.map (fun r' => toXmlString c15RtEnv r'.erase []) =
+      [.ok "<r xmlns=\"urn:a\" xmlns:p=\"urn:b\"><p:c/></r>".toList] := by decide +kernel
+
+example : ∃ r' s p,
+    let S' := (⟨Forest.init, c15RtEnv⟩ : Store).xrun (c15ReachCalls ++ [.deduplicateNamespaces 0])
+    (Forest.XCall.deduplicateNamespaces 0).run S' = (S', .ok) ∧
+    S'.forest.rootOf? 0 = some r' ∧ toXmlString c15RtEnv r'.erase [] = .ok s ∧
+      parseString .document c15RtEnv s = .ok p ∧ p.tree = r'.erase ∧ deepEqual p.tree c15RtDoc = true := by
+  obtain ⟨_, _, _, hidem, r', _, _, _, _, h3, _, _, _, s, p, k1, k2, k3, _, k5⟩ :=
+    C15_reachable_dedup c15RtEnv c15ReachCalls (by decide) _ rfl (by decide +kernel)
+      c15ReachRoot (by decide +kernel) rfl (by decide +kernel) (by decide +kernel) (by decide +kernel)
+      (by decide +kernel) (by decide +kernel) 0 (by decide) _ rfl
+  exact ⟨r', s, p, hidem, h3, k1, k2, k3, k5⟩
+
+end EndToEnd
+
 end XotModel.Props
